@@ -50,6 +50,16 @@ type edit struct {
 
 var cancelRe = regexp.MustCompile(`(?i)cancel`)
 
+// overrideSrc maps a repo file to the file whose content replaces it.
+var overrideSrc = map[string]string{}
+
+func readSrc(path string) ([]byte, error) {
+	if o, ok := overrideSrc[path]; ok {
+		return os.ReadFile(o)
+	}
+	return os.ReadFile(path)
+}
+
 func fatal(format string, a ...any) {
 	fmt.Fprintf(os.Stderr, "instrument: "+format+"\n", a...)
 	os.Exit(1)
@@ -93,6 +103,12 @@ func main() {
 		fatal("%v", err)
 	}
 	replace := map[string]string{}
+	for rel, src := range sp.Add {
+		if !filepath.IsAbs(src) {
+			src = filepath.Join(*root, src)
+		}
+		overrideSrc[filepath.Join(*repo, rel)] = src
+	}
 
 	// shim packages
 	replace[filepath.Join(*repo, "v2/pkg/vsync/vsync.go")] = filepath.Join(*root, "shim/vsync/vsync.go")
@@ -157,12 +173,16 @@ func main() {
 		}
 	}
 
+	override := map[string]string{}
+	for k, v := range overrideSrc {
+		override[k] = v
+	}
 	nPoints, nImports, nRanges := 0, 0, 0
 	for _, p := range pkgs {
 		dir := filepath.Join(*repo, p)
 		for _, name := range goFiles(dir) {
 			path := filepath.Join(dir, name)
-			src, err := os.ReadFile(path)
+			src, err := readSrc(path)
 			if err != nil {
 				fatal("%v", err)
 			}
@@ -247,6 +267,7 @@ func main() {
 			if len(edits) == 0 {
 				continue
 			}
+			delete(override, path)
 			if needShim {
 				// same line as the package clause: keeps line numbers
 				off := fset.Position(f.Name.End()).Offset
@@ -266,12 +287,8 @@ func main() {
 			replace[path] = op
 		}
 	}
-	for rel, src := range sp.Add {
-		if filepath.IsAbs(src) {
-			replace[filepath.Join(*repo, rel)] = src
-		} else {
-			replace[filepath.Join(*repo, rel)] = filepath.Join(*root, src)
-		}
+	for path, src := range override {
+		replace[path] = src
 	}
 	b, _ := json.MarshalIndent(map[string]any{"Replace": replace}, "", " ")
 	of := filepath.Join(*out, "overlay.json")
@@ -292,13 +309,12 @@ type mapSite struct {
 func hashDir(dir string) string {
 	h := sha256.New()
 	for _, n := range goFiles(dir) {
-		f, err := os.Open(filepath.Join(dir, n))
+		b, err := readSrc(filepath.Join(dir, n))
 		if err != nil {
 			continue
 		}
 		io.WriteString(h, n)
-		io.Copy(h, f)
-		f.Close()
+		h.Write(b)
 	}
 	return hex.EncodeToString(h.Sum(nil))[:16]
 }
@@ -347,7 +363,11 @@ func findMapRanges(dir, rel string, exports map[string]string) map[string][]mapS
 	fset := token.NewFileSet()
 	var files []*ast.File
 	for _, n := range goFiles(dir) {
-		f, err := parser.ParseFile(fset, filepath.Join(dir, n), nil, 0)
+		src, err := readSrc(filepath.Join(dir, n))
+		if err != nil {
+			fatal("read: %v", err)
+		}
+		f, err := parser.ParseFile(fset, filepath.Join(dir, n), src, 0)
 		if err != nil {
 			fatal("parse: %v", err)
 		}
